@@ -18,6 +18,9 @@ import (
 type c07Case struct {
 	X     vfB    `json:"x"`
 	Limit uint32 `json:"limit"`
+	// Reader: also go through DetectReader, right after a reader detection under PrevLimit
+	Reader    bool   `json:"reader,omitempty"`
+	PrevLimit uint32 `json:"prev_limit,omitempty"`
 }
 
 func c07Check(c c07Case) vfResult {
@@ -34,6 +37,18 @@ func c07Check(c c07Case) vfResult {
 	}
 	if textLike && m.Parent() == nil {
 		r.Err = fmt.Errorf("header %s has a BOM or no binary-data byte, but result is the bare root (%s)", vfQ(h), vfChainStr(m))
+	}
+	if r.Err == nil && c.Reader && c.Limit <= 1<<20 && c.PrevLimit <= 1<<20 {
+		mr, err := vfReaderAfter(c.PrevLimit, c.Limit, c.X)
+		r.Labels = append(r.Labels, "reader-after-other-limit")
+		switch {
+		case err != nil || mr == nil:
+			r.Err = fmt.Errorf("DetectReader returned (%v, %v)", mr, err)
+		case vfInFamily(mr, "text/plain") && !textLike:
+			r.Err = fmt.Errorf("DetectReader (after a detection under limit %d): text/plain in hierarchy (%s) but header %s has a binary-data byte and no BOM", c.PrevLimit, vfChainStr(mr), vfQ(h))
+		case textLike && mr.Parent() == nil:
+			r.Err = fmt.Errorf("DetectReader (after a detection under limit %d): header %s has a BOM or no binary-data byte, but result is the bare root", c.PrevLimit, vfQ(h))
+		}
 	}
 	// non-trivial: the header carries a control/high byte or a BOM, or a binary byte sits
 	// directly beyond the limit
@@ -143,7 +158,12 @@ func TestVerif_C07(t *testing.T) {
 				default:
 					x = vfGenAnyInput(t)
 				}
-				return c07Case{X: x, Limit: vfGenLimit(t, len(x))}
+				c := c07Case{X: x, Limit: vfGenLimit(t, len(x))}
+				if rapid.Bool().Draw(t, "reader") {
+					c.Reader = true
+					c.PrevLimit = rapid.SampledFrom([]uint32{0, 1, 8, 64, 3072, 8192, uint32(len(x) + 9)}).Draw(t, "prev")
+				}
+				return c
 			},
 			Check: c07Check,
 		})
@@ -178,6 +198,12 @@ func c07Enumerate(t *testing.T) {
 					}
 					for _, lim := range []uint32{0, uint32(p), uint32(p + 1), uint32(len(x)), uint32(len(x) + 1)} {
 						c := c07Case{X: x, Limit: lim}
+						if (idx+v)%4 == 0 {
+							c.Reader, c.PrevLimit = true, uint32(len(x)+16)
+							if v%2 == 0 {
+								c.PrevLimit = 1
+							}
+						}
 						r := c07Check(c)
 						r.Labels = append(r.Labels, "enum")
 						vfStats.record(r, func() any { return map[string]any{"sub": "enum", "template": ti, "case": c} })
